@@ -26,8 +26,7 @@ def variants(dtype, rng):
             ('alpha,hidden=7', dict(encoding='alpha', hidden=7, dtype='uint8'))]
 
 
-def main():
-    run = Run('C08')
+def body(run):
     run.build(extra_targets=['theories/Corr/CheckC01.v', 'theories/Corr/CheckC20.v'])
     rng = run.rng('hidden')
     # (a1) reading: the four encodings with several hidden values, model evaluated in Coq
@@ -118,8 +117,7 @@ def main():
                         'a valid pixel equal to a numeric nodata value is invalid by definition of that encoding (generator avoids it)',
                         'alpha encoding only on integer images (GDAL treats a float alpha band as all_valid)']
     run.trusted += ['GDAL mask/alpha/nodata decoding and resampling']
-    run.finish()
 
 
 if __name__ == '__main__':
-    main()
+    Run('C08').guard(body)
